@@ -64,8 +64,18 @@ class C19(Check):
     assumptions = ["the REPL echoes nothing but the prompt 'laythe:> '; prompts are stripped before comparing",
                    "redefinition of an existing name at the prompt is not modelled (the property does not define it; observed: `let x = 5;` for an existing x is silently ignored)"]
 
+    prompt = "laythe:> "
+
     def __init__(self, build_kind="checked"):
         self.build_kind = build_kind
+        # the prompt is whatever an empty session prints (not a constant of this check)
+        from vlib.engine import map_cases
+        try:
+            r = map_cases([{"repl": []}], build=build_kind)[0]
+            if r.get("class") == "ok" and r.get("out"):
+                self.prompt = r["out"]
+        except Exception:
+            pass
 
     def gen(self, tier):
         if tier == "thorough":
@@ -95,7 +105,7 @@ class C19(Check):
             v = Verdict(False, cross, "file-not-ok", "the file version did not run cleanly (model error?): class=%s err=%r" % (fl.get("class"), fl.get("err", "")[-300:]))
             v.extra["machinery"] = True
             return v
-        out = rp.get("out", "").replace("laythe:> ", "")
+        out = rp.get("out", "").replace(self.prompt, "")
         if rp.get("class") != "ok" or out != fl.get("out", ""):
             return Verdict(False, True, "repl!=file", "REPL and file disagree: repl class=%s out=%r %s | file out=%r" % (
                 rp.get("class"), out[-300:], rp.get("panic") or rp.get("signal") or "", fl.get("out", "")[-300:]))
